@@ -452,6 +452,7 @@ class Calibration(abc.Mapping):
     def to_proto(self) -> v2.metrics_pb2.MetricsSnapshot:
         """Reconstruct the protobuf message represented by this class."""
         proto = v2.metrics_pb2.MetricsSnapshot()
+        proto.timestamp_ms = self.timestamp
         for key in self._metric_dict:
             for targets, value_list in self._metric_dict[key].items():
                 current_metric = proto.metrics.add()
